@@ -53,3 +53,12 @@ Theorem C05_agree_refuted :
   exists m k ty, field_chain m k true ty <> option_map ma_core (applicable_field_attr m k false ty).
 Proof. exact chains_disagree_fallible. Qed.
 Print Assumptions C05_agree_refuted.
+
+(* ... and therefore never changes that conversion's generated impl: token-identical output, for any
+   struct, any field, any position among the field's instructions *)
+Theorem C05_impl_unchanged : forall s pre fld post l1 a l2 c,
+    applicable_somewhere a (c_kind c) (c_fallible c) (c_ty c) = false ->
+    expand_impl (DStruct (set_fields s (pre ++ set_field_attrs fld (l1 ++ a :: l2) :: post))) c
+    = expand_impl (DStruct (set_fields s (pre ++ set_field_attrs fld (l1 ++ l2) :: post))) c.
+Proof. exact impl_unchanged_by_inapplicable. Qed.
+Print Assumptions C05_impl_unchanged.
